@@ -15,6 +15,7 @@ from __future__ import annotations
 import html
 import html.entities
 import itertools
+import json
 import os
 import re
 import urllib.parse
@@ -25,7 +26,7 @@ import tempfile
 import time
 import traceback
 
-from harness.common import shrink_str, LEAN, DRV, Driver, LeanError
+from harness.common import shrink_str, LEAN, Driver, LeanError
 
 
 def enc(s):
@@ -41,7 +42,12 @@ RULE = ("single code points: every scalar value U+0000..U+10FFFF (thorough) / al
         "&#c; &#xc; &c;), UTF-8 encode, and the handler under 5 charsets (text 'a'+c+c+'<'); short strings: every string "
         "of <= 3 tokens (thorough 4) over 20 markup-significant tokens / entity fragments, and of <= 4 (thorough 5) over 17 "
         "reference-syntax tokens for unescape; random strings of 0-24 tokens mixing those with arbitrary Unicode "
-        "(BMP, astral, whitespace set, C1); a case is non-trivial when the filter changes the text (or the decoder "
+        "(BMP, astral, whitespace set, C1); long dense strings: runs of 1..2000 markup-significant characters (quick: 84 lengths; "
+        "thorough: every length) pure and mixed with text / whitespace / non-ASCII / entity fragments, for every filter and "
+        "the handler; decode.<enc>: histories of (lookup decode.<enc_i> | call closure j on str/bytes/object) - all ordered "
+        "pairs of charsets with both call orders and interleaved lookups + random histories of 2-9 operations, vs the "
+        "closure-per-lookup model (utf8/latin1/ascii) and vs bytes.decode (8 charsets), plus nested renders and a "
+        "deterministic two-thread interleaving; a case is non-trivial when the filter changes the text (or the decoder "
         "finds a reference); distinct = distinct (filter, input) pairs")
 ASSUMPTIONS = [
     "strings with lone surrogates are outside the domain (Lean's Char is the Unicode scalar values); the one place "
@@ -109,6 +115,150 @@ def random_string(rng):
         else:
             out.append(rng.choice("0123456789abcdefABCDEFxX#;&"))
     return "".join(out)
+
+
+DENSE_LENS_QUICK = list(range(1, 71)) + [96, 100, 127, 128, 129, 200, 255, 256, 257, 500, 512, 1000, 1024, 2000]
+
+
+def dense_strings(ctx):
+    """long dense strings, ascending in length: runs of 1..2000 markup-significant characters, pure and mixed with
+    text, whitespace, non-ASCII and entity fragments - so that count-limited, length-dependent or chunking
+    behaviour shows with a concrete (and, coming first, already short) input"""
+    lens = DENSE_LENS_QUICK if ctx.quick else sorted(set(DENSE_LENS_QUICK) | set(range(1, 2001, 1)))
+    sel = set(DENSE_LENS_QUICK)
+    out = []
+    for n in lens:
+        out.append("<" * n)
+        out.append("&" * n)
+        if n not in sel:
+            continue              # thorough: every length for the two pure runs, the patterns at the selected lengths
+        for c in ">\"'":
+            out.append(c * n)
+        out.append(("&<>\"'" * n)[:n])
+        out.append(("a<" * n)[:2 * n])
+        out.append("x" + "&" * n + "y")
+        out.append((" \t\n\u00a0" * n)[:n] + "a" + ("<b " * n)[:n] + ("\u3000 \x1f" * n)[:n])
+        out.append("\u00e9" * n)
+        out.append(("\u20ac\u4e16<" * n)[:n])
+        out.append("&amp;" * n)
+        out.append("&#38;&#x26;&zz;" * ((n + 2) // 3))
+        out.append(("% +/" * n)[:n])
+    rng = ctx.rng
+    pool = ["&", "<", ">", '"', "'", "&amp;", "&#39;", ";", "a", " ", "\u00e9", "\u20ac", "%", "+", "\n", "\U0001f600"]
+    for _ in range(60 if ctx.quick else 400):
+        out.append("".join(rng.choice(pool) for _ in range(rng.randint(100, 3000))))
+    return out
+
+
+# decode.<enc>: histories of lookups and calls -------------------------------------------------------------------
+# an op is ["L", label, enc] (d_label = decode.<enc>) or ["C", label, kind, payload] (d_label(x));
+# kind: "str" | "other" (an object whose str() is the payload) | "bytes" (payload = hex)
+MODEL_ENCS = ["utf8", "latin1", "ascii"]                     # the codecs the Lean driver implements
+ORACLE_ENCS = ["utf8", "latin1", "ascii", "utf_16", "cp1251", "shift_jis", "iso8859_15", "utf_8"]
+DECODE_BYTES = ["c3a9", "616263", "e282ac", "ff", "a4", "8140", "fffe6100", "", "c3a9e4b896", "80"]
+
+
+class StrObj:
+    def __init__(self, s):
+        self.s = s
+
+    def __str__(self):
+        return self.s
+
+
+def decode_families(encs):
+    """two closures for different charsets held at once and called in both orders; interleaved lookups"""
+    fams = []
+    for e1 in encs:
+        for e2 in encs:
+            for hx in DECODE_BYTES[:4]:
+                x = ["bytes", hx]
+                fams.append([["L", 0, e1], ["L", 1, e2], ["C", 0] + x, ["C", 1] + x])
+                fams.append([["L", 0, e1], ["L", 1, e2], ["C", 1] + x, ["C", 0] + x])
+                fams.append([["L", 0, e1], ["C", 0] + x, ["L", 1, e2], ["C", 0] + x, ["C", 1] + x, ["C", 0] + x])
+            fams.append([["L", 0, e1], ["L", 1, e2], ["C", 0, "str", "\u00e9"], ["C", 0, "other", "o\u00e9"],
+                         ["C", 0, "bytes", "c3a9"]])
+    return fams
+
+
+def random_decode_ops(rng, encs):
+    ops = []
+    n = 0
+    for _ in range(rng.randint(2, 9)):
+        if n == 0 or rng.random() < 0.4:
+            ops.append(["L", n, rng.choice(encs)])
+            n += 1
+        else:
+            kind = rng.choice(["bytes", "bytes", "bytes", "str", "other"])
+            payload = rng.choice(DECODE_BYTES) if kind == "bytes" else rng.choice(["", "a", "\u00e9<", "\u4e16"])
+            ops.append(["C", rng.randrange(n), kind, payload])
+    return ops
+
+
+def ops_value(kind, payload):
+    if kind == "bytes":
+        return bytes.fromhex(payload)
+    return payload if kind == "str" else StrObj(payload)
+
+
+def run_ops_impl(F, ops):
+    """execute a history on the real `filters.decode`; one entry per call: the str returned, or 'raises <Class>'"""
+    held = {}
+    res = []
+    for op in ops:
+        if op[0] == "L":
+            held[op[1]] = getattr(F.decode, op[2])
+        else:
+            d = held.get(op[1])
+            if d is None:
+                res.append("badindex")
+                continue
+            try:
+                r = d(ops_value(op[2], op[3]))
+                res.append(r if isinstance(r, str) else "not-a-str %r" % (r,))
+            except Exception as e:
+                res.append("raises " + type(e).__name__)
+    return res
+
+
+def run_ops_ref(ops):
+    """independent reference: the closure of lookup `label` decodes with the charset of *that* lookup"""
+    encs = {}
+    res = []
+    for op in ops:
+        if op[0] == "L":
+            encs[op[1]] = op[2]
+        else:
+            e = encs.get(op[1])
+            if e is None:
+                res.append("badindex")
+            elif op[2] == "bytes":
+                try:
+                    res.append(bytes.fromhex(op[3]).decode(e))
+                except UnicodeDecodeError:
+                    res.append("raises UnicodeDecodeError")
+            else:
+                res.append(op[3])
+    return res
+
+
+def ops_request(ops):
+    """the wire request for the Lean model (closure index = order of lookups)"""
+    idx = {}
+    f = ["filt", "decodeseq"]
+    for op in ops:
+        if op[0] == "L":
+            idx[op[1]] = len(idx)
+            f += ["L", enc(op[2])]
+        else:
+            payload = bytes.fromhex(op[3]).decode("latin-1") if op[2] == "bytes" else op[3]
+            f += ["C", str(idx.get(op[1], 999)), op[2], enc(payload)]
+    return " ".join(f)
+
+
+def shrink_ops(ops, fails):
+    from harness.common import ddmin
+    return ddmin(ops, lambda sub: bool(sub) and fails(sub), 300)
 
 
 # --------------------------------------------------------------------------- implementation side
@@ -238,7 +388,7 @@ def fingerprint_changed(ctx):
     return False
 
 
-def corr(ctx, impl, cps, shorts, rnd):
+def corr(ctx, impl, cps, shorts, rnd, dense):
     chars = [chr(c) for c in cps]
     full = not ctx.quick
     # (1) every code point through each filter ---------------------------------------------------------------
@@ -287,6 +437,27 @@ def corr(ctx, impl, cps, shorts, rnd):
                nontriv=False)
     for k, v in sorted(impl.outcomes.items()):
         ctx.branch("unescape:outcome:" + k, v)
+    # (3b) long dense strings ---------------------------------------------------------------------------------
+    for name, f in (("x", impl.x), ("h", impl.h), ("u", impl.u), ("entity", impl.entity), ("xee", impl.xee),
+                    ("trim", impl.trim)):
+        corr_batch(ctx, "corr.dense." + name, name, dense, lambda s, f=f: enc(f(s)))
+    corr_batch(ctx, "corr.dense.unescape", "unescape", dense, impl.unescape_counted, nontriv=False)
+    corr_batch(ctx, "corr.dense.unescape_of_entity", "unescape", [impl.entity(s) for s in dense[:: 3]],
+               impl.unescape_counted, nontriv=False)
+    # (3c) decode.<enc>: histories of lookups and calls against the closure-per-lookup model ------------------
+    st = ctx.stream("corr.decode.sequences")
+    seqs = decode_families(MODEL_ENCS) + [random_decode_ops(ctx.rng, MODEL_ENCS) for _ in range(20000 if ctx.quick else 200000)]
+    outs = ctx.driver().ask_many([ops_request(o) for o in seqs])
+    for ops, o in zip(seqs, outs):
+        st["cases"] += 1
+        got = run_ops_impl(impl.filters, ops)
+        want = " ".join(("none" if r == "raises UnicodeDecodeError" else r if r.startswith(("raises", "not-a-str", "badindex")) else enc(r))
+                        for r in got) if got else "[]"
+        if o != want:
+            ctx.disagree("corr.decode.sequences", {"ops": ops, "filter": "decode"}, o, want)
+        if sum(1 for op in ops if op[0] == "L") > 1:
+            ctx.nontriv(("decodeseq", json.dumps(ops)))
+    ctx.branch("decode:sequences-with-several-closures", sum(1 for ops in seqs if sum(1 for op in ops if op[0] == "L") > 1))
     # (4) Decode ------------------------------------------------------------------------------------------------
     dec_f = impl.filters.decode.utf8
     st = ctx.stream("corr.decode")
@@ -396,6 +567,11 @@ def handler_cases(ctx, cps, rnd):
         for c in sub:
             ch = chr(c)
             yield "a" + ch + ch + "<", cs
+    for cs in CHARSETS:
+        for n in DENSE_LENS_QUICK:
+            yield "\u00e9" * n, cs
+            yield ("\u20aca" * n)[:n], cs
+            yield ("\u4e16\U0001f600<" * n)[:n], cs
     extra = ["\u20ac", "The cost was \u20ac12.", "\u20ac\u4e16\u20ac", "\\~\u00a5\u203e", "", "plain", "\u00e9\u00e8<\u4e16>&\"'"]
     for cs in CHARSETS:
         for s in extra + rnd[: (2000 if ctx.quick else 20000)]:
@@ -574,12 +750,110 @@ def check_handler(s, cs, encode):
     return "htmlentityreplace-unfaithful", "output %r is not the text with each unencodable character replaced by a reference to it" % out[:60]
 
 
-def oracle(ctx, impl, cps, shorts, rnd):
+def check_decode_ops(F, ops):
+    got = run_ops_impl(F, ops)
+    want = run_ops_ref(ops)
+    if got != want:
+        k = next(i for i, (a, b) in enumerate(zip(got, want)) if a != b)
+        return "call #%d returned %r, the charset of its own lookup gives %r" % (k, got[k], want[k])
+    return None
+
+
+def check_decode_nested(e1, e2, hx1, hx2):
+    """`${fragment()}` under default_filters=['decode.<e1>'] while fragment() renders a template using decode.<e2>"""
+    from mako.template import Template
+    b1, b2 = bytes.fromhex(hx1), bytes.fromhex(hx2)
+    try:
+        want1, want2 = b1.decode(e1), b2.decode(e2)
+    except UnicodeDecodeError:
+        return None
+    inner = Template("${v | n,decode.%s}" % e2)
+    seen = []
+
+    def fragment():
+        seen.append(inner.render(v=b2))
+        return b1
+    outer = Template("[${fragment()}]", default_filters=["decode." + e1])
+    try:
+        out = outer.render(fragment=fragment)
+    except Exception as e:
+        return "nested render raised %s: %s" % (type(e).__name__, e)
+    if seen != [want2]:
+        return "inner template (decode.%s) rendered %r, expected %r" % (e2, seen, want2)
+    if out != "[" + want1 + "]":
+        return "outer template (decode.%s around a fragment that used decode.%s) rendered %r, expected %r" % (e1, e2, out, "[" + want1 + "]")
+    return None
+
+
+def check_decode_threads(F, e1, e2, hx):
+    """thread 1 looks decode.<e1> up, thread 2 looks up and calls decode.<e2>, then thread 1 calls its closure"""
+    import threading
+    b = bytes.fromhex(hx)
+    ev1, ev2 = threading.Event(), threading.Event()
+    res = {}
+
+    def call(d):
+        try:
+            return d(b)
+        except Exception as e:
+            return "raises " + type(e).__name__
+
+    def t1():
+        d = getattr(F.decode, e1)
+        ev1.set()
+        ev2.wait(10)
+        res[1] = call(d)
+
+    def t2():
+        ev1.wait(10)
+        res[2] = call(getattr(F.decode, e2))
+        ev2.set()
+    a, c = threading.Thread(target=t1), threading.Thread(target=t2)
+    a.start(); c.start(); a.join(20); c.join(20)
+    want = run_ops_ref([["L", 1, e1], ["L", 2, e2], ["C", 1, "bytes", hx], ["C", 2, "bytes", hx]])
+    if [res.get(1), res.get(2)] != want:
+        return "thread 1 (decode.%s) got %r, thread 2 (decode.%s) got %r; expected %r" % (e1, res.get(1), e2, res.get(2), want)
+    return None
+
+
+def oracle_decode_state(ctx, rep, F):
+    """decode.<enc> depends only on <enc> and the argument: closures held at once, both orders, interleaved lookups,
+    nested renders, two threads - against bytes.decode(enc)"""
+    st = ctx.stream("oracle.decode.sequences", "oracle")
+    seqs = decode_families(ORACLE_ENCS) + [random_decode_ops(ctx.rng, ORACLE_ENCS) for _ in range(5000 if ctx.quick else 60000)]
+    for ops in seqs:
+        st["cases"] += 1
+        bad = check_decode_ops(F, ops)
+        if bad:
+            small = shrink_ops(ops, lambda sub: check_decode_ops(F, sub) is not None)
+            rep.report("decode-uses-other-charset", {"input": json.dumps(small), "ops": small, "filter": "decode", "via": "sequence"},
+                       check_decode_ops(F, small) or bad, "oracle.decode.sequences")
+    st = ctx.stream("oracle.decode.nested_render", "oracle")
+    pairs = [(e1, e2) for e1 in ORACLE_ENCS[:6] for e2 in ORACLE_ENCS[:6]]
+    for e1, e2 in pairs:
+        for hx1, hx2 in (("c3a9", "e9"), ("616263", "c3a9"), ("e282ac", "a4")):
+            st["cases"] += 1
+            bad = check_decode_nested(e1, e2, hx1, hx2)
+            if bad:
+                rep.report("decode-uses-other-charset", {"input": "%s/%s" % (e1, e2), "filter": "decode", "via": "nested-render",
+                                                          "e1": e1, "e2": e2, "bytes1": hx1, "bytes2": hx2}, bad,
+                           "oracle.decode.nested_render")
+    st = ctx.stream("oracle.decode.threads", "oracle")
+    for e1, e2 in pairs:
+        st["cases"] += 1
+        bad = check_decode_threads(F, e1, e2, "c3a9")
+        if bad:
+            rep.report("decode-uses-other-charset", {"input": "%s/%s" % (e1, e2), "filter": "decode", "via": "threads",
+                                                      "e1": e1, "e2": e2, "bytes1": "c3a9"}, bad, "oracle.decode.threads")
+
+
+def oracle(ctx, impl, cps, shorts, rnd, dense):
     rep = Reporter(ctx)
     F = impl.filters
-    texts = [chr(c) for c in cps] + shorts + rnd
+    texts = [chr(c) for c in cps] + shorts + dense + rnd
     single = len(cps)
-    ctx.log("oracle: %d texts (%d single code points, %d short, %d random)" % (len(texts), single, len(shorts), len(rnd)))
+    ctx.log("oracle: %d texts (%d single code points, %d short, %d dense up to %d chars, %d random)"
+            % (len(texts), single, len(shorts), len(dense), max(map(len, dense)), len(rnd)))
 
     def sweep(stream, site, f, check, exhaustive):
         st = ctx.stream(stream, "oracle", exhaustive)
@@ -650,6 +924,8 @@ def oracle(ctx, impl, cps, shorts, rnd):
         if type(r) is not str or r != str(o):
             rep.report("decode-object", {"input": repr(o), "filter": "decode.utf8"}, "decode(object) is not str(object)", "oracle.decode")
 
+    oracle_decode_state(ctx, rep, F)
+
     # the error handler ------------------------------------------------------------------------------------------
     st = ctx.stream("oracle.handler", "oracle", full)
     enc_f = lambda s, cs: s.encode(cs, "htmlentityreplace")
@@ -708,41 +984,13 @@ def oracle(ctx, impl, cps, shorts, rnd):
 
 
 class LocalDriver(Driver):
-    """the compiled driver, copied to a scratch directory for the duration of the run: concurrent checks relink
-    lean/.lake/build/bin/makodrv, which makes the shared path vanish for a moment"""
+    """common.Driver already works on a private copy of the per-area driver executable (makodrv_filt)"""
 
     def __init__(self):
-        self.dir = tempfile.mkdtemp(prefix="c10drv_")
-        self.path = os.path.join(self.dir, "makodrv")
-        for attempt in range(120):
-            try:
-                shutil.copy2(DRV, self.path)
-                break
-            except OSError:
-                time.sleep(0.5)
-        else:
-            raise LeanError("driver not built: " + DRV)
-        self.n = 0
-
-    def ask_many(self, lines):
-        lines = list(lines)
-        if not lines:
-            return []
-        data = "\n".join(lines) + "\n"
-        p = subprocess.run([self.path], input=data.encode("ascii"), stdout=subprocess.PIPE, stderr=subprocess.PIPE,
-                           timeout=3000)
-        if p.returncode != 0:
-            raise LeanError("driver exited %d: %s" % (p.returncode, p.stderr.decode()[-2000:]))
-        out = p.stdout.decode("ascii").split("\n")
-        if out and out[-1] == "":
-            out.pop()
-        if len(out) != len(lines):
-            raise LeanError("driver answered %d lines for %d requests" % (len(out), len(lines)))
-        self.n += len(lines)
-        return out
+        super().__init__()
 
     def close(self):
-        shutil.rmtree(self.dir, ignore_errors=True)
+        pass
 
 
 def run(ctx):
@@ -758,7 +1006,7 @@ def run(ctx):
             drv.close()
 
 
-def start_oracle_child(ctx, cps, shorts, rnd):
+def start_oracle_child(ctx, cps, shorts, rnd, dense):
     """run the oracle streams in a forked child while the correspondence streams talk to the Lean driver (the two
     are independent by construction: the oracle uses neither Lean nor ctx.rng).  Returns (process, pipe) or None."""
     try:
@@ -771,7 +1019,7 @@ def start_oracle_child(ctx, cps, shorts, rnd):
             c.t0 = ctx.t0
             err = None
             try:
-                oracle(c, Impl(), cps, shorts, rnd)
+                oracle(c, Impl(), cps, shorts, rnd, dense)
             except BaseException:
                 err = traceback.format_exc()
             tx.send({"err": err, "violations": c.violations, "streams": c.streams, "branches": c.branches,
@@ -820,14 +1068,15 @@ def run_streams(ctx):
     shorts = list(short_strings(TOKENS, 3 if ctx.quick else 4))
     rnd = [random_string(ctx.rng) for _ in range(8000 if ctx.quick else 120000)]
     ctx.log("C10: %d code points, %d short strings, %d random strings" % (len(cps), len(shorts), len(rnd)))
-    job = start_oracle_child(ctx, cps, shorts, rnd)
+    dense = dense_strings(ctx)
+    job = start_oracle_child(ctx, cps, shorts, rnd, dense)
     try:
-        corr(ctx, impl, cps, shorts, rnd)
+        corr(ctx, impl, cps, shorts, rnd, dense)
         corr_spec(ctx, impl, shorts, rnd)
         corr_handler(ctx, impl, handler_cases(ctx, cps, rnd))
     finally:
         if job is None or not join_oracle_child(ctx, job):
-            oracle(ctx, impl, cps, shorts, rnd)
+            oracle(ctx, impl, cps, shorts, rnd, dense)
 
 
 # --------------------------------------------------------------------------- replay
@@ -877,6 +1126,24 @@ def replay(ctx, data):
         "xee": (impl.xee, lambda o, t: None, "xee"),
         "unescape": (impl.unescape, lambda o, t: None, "unescape"),
     }
+    if name == "decode" and case.get("via") == "sequence":
+        ops = case["ops"]
+        print("implementation:", run_ops_impl(F, ops))
+        print("reference     :", run_ops_ref(ops))
+        m = None if drv is None else drv.ask(ops_request(ops))
+        if m is not None:
+            print("model         :", [x if x in ("none", "badindex") else dec(x) for x in m.split(" ")])
+        r = check_decode_ops(F, ops)
+        print("oracle        :", r or "holds")
+        return r is None
+    if name == "decode" and case.get("via") == "nested-render":
+        r = check_decode_nested(case["e1"], case["e2"], case["bytes1"], case["bytes2"])
+        print("oracle        :", r or "holds")
+        return r is None
+    if name == "decode" and case.get("via") == "threads":
+        r = check_decode_threads(F, case["e1"], case["e2"], case["bytes1"])
+        print("oracle        :", r or "holds")
+        return r is None
     if name.startswith("decode"):
         r = F.decode.utf8(s)
         print("implementation: decode.utf8(%r) = %r" % (s, r))
@@ -893,3 +1160,6 @@ def replay(ctx, data):
         print("model         : %r" % (m if op == "unescape" else dec(m)))
     print("oracle        :", bad or "holds")
     return bad is None
+
+
+DRIVER_OPS = ["filt"]   # per-area driver executable(s) this check talks to (built before any worker is forked)
